@@ -95,13 +95,19 @@ def register_units(UNITS, gen):
         else:
             fn = gen.find_func(c, "handle")
         body = gen.body_without_doc(fn)
-        tries = [i for i, s in enumerate(body) if isinstance(s, ast.Try)]
+        def catches_notfound(t):
+            return any(h.type is not None and dotted(h.type).endswith("FileNotFound") for h in t.handlers)
+        tries = [i for i, s in enumerate(body) if isinstance(s, ast.Try) and catches_notfound(s)]
         if len(tries) != 1:
-            raise U("%s.handle: expected exactly one top-level try" % cls)
-        for s in body:
-            for x in ast.walk(s):
-                if isinstance(x, ast.Try) and x is not body[tries[0]]:
-                    raise U("%s.handle: nested try" % cls)
+            raise U("%s.handle: expected exactly one top-level try with a FileNotFound handler" % cls)
+        for x in ast.walk(body[tries[0]]):
+            if isinstance(x, ast.Try) and x is not body[tries[0]]:
+                raise U("%s.handle: try nested in the main try" % cls)
+        for i, s in enumerate(body):
+            if i != tries[0]:
+                for x in ast.walk(s):
+                    if isinstance(x, ast.Try) and catches_notfound(x):
+                        raise U("%s.handle: second try with a FileNotFound handler" % cls)
         t = body[tries[0]]
         if t.orelse or t.finalbody or len(t.handlers) != 2:
             raise U("%s.handle: try has else/finally or not exactly two handlers" % cls)
@@ -147,9 +153,19 @@ def register_units(UNITS, gen):
             raise U(reply + ": no message parameter")
         mp = params[-1]
         steps = []
+        tainted = False
         for s in gen.body_without_doc(rf):
             if isinstance(s, ast.Assign) and len(s.targets) == 1 and isinstance(s.targets[0], ast.Name) \
                     and s.targets[0].id == "wfile" and dotted(s.value) == "self.wfile":
+                continue
+            if isinstance(s, ast.Assign) and len(s.targets) == 1 and isinstance(s.targets[0], ast.Name) \
+                    and s.targets[0].id == mp:
+                # msg = msg.replace(...) and the like: fails on None, at the latest before the next write
+                for x in ast.walk(s.value):
+                    if isinstance(x, ast.Call) and not (isinstance(x.func, ast.Attribute) and x.func.attr in
+                                                        ("replace", "strip", "rstrip", "lstrip", "encode", "decode")):
+                        raise U(reply + ": message rewritten by an unexpected call")
+                tainted = True
                 continue
             if not (isinstance(s, ast.Expr) and isinstance(s.value, ast.Call)
                     and dotted(s.value.func) in ("self.wfile.write", "wfile.write") and len(s.value.args) == 1):
@@ -168,6 +184,8 @@ def register_units(UNITS, gen):
                     if isinstance(p, ast.BinOp) and isinstance(p.op, ast.Mod) and p.right is x:
                         continue                      # "...%s" % msg
                     kind = "NfWEscape"                # html.escape(msg), msg.encode(), msg + ...: fails on None
+            if tainted:
+                kind, tainted = "NfWEscape", False
             steps.append(kind)
         return "HSpec %s %s %s [%s]" % ("true" if in_try else "false", "true" if logs else "false", msg, "; ".join(steps))
 
